@@ -19,7 +19,7 @@ package internals
 //@   ghost_update srctag := nil
 //@   ensures[C07,C11] fmter_set: result.Fmter == fmter
 //@   ensures[C07] errors_set: result.Errors == errs
-//@   ensures[C07] m_reset: result.m == nil
+//@   ensures[C07,C12] m_reset: result.m == nil
 
 //@ func (*ExecCtx).NewSchemaCtx(c, val, destPtr, path, dtype)
 //@   fresh
@@ -556,7 +556,7 @@ package internals
 //@   trusted_posts
 //@   pure
 //@   loop for.loop#1
-//@     invariant rv_caniface(refVal)
+//@     invariant rv_caniface(refVal) && (dyn(rv_iface(refVal)) != 0 || rv_canaddr(refVal))
 //@   ensures result == unwrapped(x)
 //@   ensures istype(result, DpFactory) ==> istype(x, DpFactory)
 
